@@ -1,5 +1,7 @@
 import PqModel.SortCmp
 import PqModel.SortWriter
+import PqModel.SortNested
+import PqModel.SortCuts
 import PqModel.Props.C09
 
 /-! # C10 — Sorting buffers output a correctly ordered permutation
@@ -454,7 +456,157 @@ example : untag [[1, 3], [2, 3]]
       ((PqModel.Merge.Reader.new (PqModel.Merge.tagInputs (keysOf (fun x => x) [[1, 3], [2, 3]])) []).session [2, 2, 2, 2, 2]).1)
       = ([1, 2, 3] : List Int) := by decide
 
+/-! ## 10. nested sorting columns: what `Buffer.configure` does with a leaf's inherited levels
+
+A required leaf below an optional group has `maxDefinitionLevel > 0`: it lives in an optional column
+buffer and is null wherever the group is absent; below a repeated group it lives in a repeated
+column buffer. `configure` must decide from the *levels*, not from the leaf's own repetition type. -/
+
+/-- for EVERY leaf (any levels, any own repetition type), sorting direction and null placement: the
+    `Less` of the sorted column as `configure` sets it up (buffer kind from the levels, null ordering
+    function, `reversedColumnBuffer` iff descending and not nullable) ⇔ the comparator is negative -/
+theorem configure_less_agrees {V : Type} (o : VOrd V) (l : Leaf) (sc : SortCol) {c : Col V} (h : c.CInv)
+    (hk : c.KindOf l) {i j : Nat} (hi : i < c.view.length) (hj : j < c.view.length) :
+    Col.lessConf o.lt (configure l (some sc)) c i j = true ↔ cmpCell o.cmp sc (c.val i) (c.val j) < 0 := by
+  rw [Col.lessConf_configure o.lt l sc hk]
+  exact Col.less_agrees o h sc hi hj
+
+/-- a required leaf (`ownOptional = ownRepeated = false`) inside an optional group, group absent in
+    row 0, value 5 in row 1; descending, nulls last: `Less(1, 0)` holds and `Less(0, 1)` does not -/
+example :
+    let l : Leaf := { maxRep := 0, maxDef := 1 }
+    let c : Col Int := .opt 1 { base := [5], rows := [-1, 0], defs := [0, 1] }
+    c.KindOf l ∧ Col.lessConf intOrd.lt (configure l (some ⟨0, true, false⟩)) c 1 0 = true ∧
+    Col.lessConf intOrd.lt (configure l (some ⟨0, true, false⟩)) c 0 1 = false := by
+  intro l c
+  exact ⟨⟨rfl, rfl, by decide⟩, by decide, by decide⟩
+
+/-- the same for a leaf with inherited repetition (a leaf of a repeated group, or a repeated leaf):
+    `configure` never reverses such a column, the configured `Less` ⇔ the comparator on the rows'
+    value lists is negative -/
+theorem configure_repeated_less_agrees {V : Type} (o : VOrd V) (l : Leaf) (hr : 0 < l.maxRep) (sc : SortCol) {m : Nat}
+    {c : RepCol V} (h : c.RInv m) {i j : Nat} (hi : i < c.rows.length) (hj : j < c.rows.length) :
+    RepCol.lessConf o.lt (configure l (some sc)) m c i j = true ↔
+      cmpList (cmpCell o.cmp sc) (c.key m i) (c.key m j) < 0 := by
+  rw [RepCol.lessConf_configure o.lt l sc hr]
+  exact RepCol.less_agrees o sc h hi hj
+
+example : (0 : Nat) < ({ maxRep := 1, maxDef := 1 } : Leaf).maxRep := by decide
+
+/-- the buffer kind follows the inherited levels; the reversing wrapper is used exactly for
+    descending columns that cannot hold a null -/
+theorem configure_kinds (l : Leaf) (sc : SortCol) :
+    ((configure l (some sc)).wrap = .plain ↔ l.maxRep = 0 ∧ l.maxDef = 0) ∧
+    ((configure l (some sc)).wrap = .optional ↔ l.maxRep = 0 ∧ 0 < l.maxDef) ∧
+    ((configure l (some sc)).wrap = .repeated ↔ 0 < l.maxRep) ∧
+    ((configure l (some sc)).reversed = true ↔ sc.desc = true ∧ l.maxRep = 0 ∧ l.maxDef = 0) :=
+  ⟨(configure_wrap l (some sc)).1, (configure_wrap l (some sc)).2.1, (configure_wrap l (some sc)).2.2, configure_reversed l sc⟩
+
+/-- the whole `Buffer.Less` over the columns as configured from ANY schema equals the `Less` chain
+    that `less_agrees`/`sort_correct` are about (hence both hold for nested sorting columns) -/
+theorem buffer_less_configured {V : Type} (o : VOrd V) (leaves : Nat → Leaf) {b : Buffer V} {n : Nat} (h : b.BInv n)
+    (hk : ∀ (k : Nat) (c : Col V), b.cols[k]? = some c → c.KindOf (leaves k))
+    (hs : ∀ sc ∈ b.sorting, sc.col < b.cols.length) {i j : Nat} (hi : i < n) (hj : j < n) :
+    b.lessConfigured o.lt leaves i j = true ↔ cmpRows o.cmp b.sorting (b.row i) (b.row j) < 0 := by
+  rw [Buffer.lessConfigured_eq o.lt leaves b hk]
+  exact Buffer.less_agrees o h hs hi hj
+
+example : ∀ (k : Nat) (c : Col Int), sampleBuf.cols[k]? = some c →
+    c.KindOf ((fun k => if k = 0 then ({ maxRep := 0, maxDef := 1 } : Leaf) else { maxRep := 0, maxDef := 0 }) k) := by
+  intro k c hc
+  match k, hc with
+  | 0, hc => simp [sampleBuf] at hc; subst hc; simp [Col.KindOf]
+  | 1, hc => simp [sampleBuf] at hc; subst hc; simp [Col.KindOf]
+  | k + 2, hc => simp [sampleBuf] at hc
+
+/-- NEGATION for the variant that derives `nullable` from the leaf's OWN repetition type
+    (`leaf.node.Optional() || leaf.node.Repeated()`): the required leaf of an optional group is
+    then wrapped in `reversedColumnBuffer`, and for a descending nulls-last column the null row
+    sorts first although the comparator says it is greater -/
+theorem configure_own_repetition_disagrees :
+    let l : Leaf := { maxRep := 0, maxDef := 1, ownOptional := false, ownRepeated := false }
+    let sc : SortCol := ⟨0, true, false⟩
+    let c : Col Int := .opt 1 { base := [5], rows := [-1, 0], defs := [0, 1] }
+    (configureOwn l (some sc)).reversed = true ∧ (configure l (some sc)).reversed = false ∧
+    Col.lessConf intOrd.lt (configureOwn l (some sc)) c 0 1 = true ∧
+    ¬ (cmpCell intOrd.cmp sc (c.val 0) (c.val 1) < 0) := by decide
+
+/-- the probe the correspondence check identifies a null ordering function with tells the four apart -/
+theorem null_ordering_probe_injective (a b c d : Bool) : ordTable a b = ordTable c d → a = c ∧ b = d :=
+  ordTable_injective a b c d
+
+/-! ## 11. where the `SortingWriter` cuts its runs (`writeRows`, `Flush`, `Close`) -/
+
+/-- for EVERY history of `Write`/`WriteRows`/`Flush` calls on a fresh writer with `sortRowCount ≥ 1`:
+    the `writeRows` loop terminates within `len(rows)` iterations per call (the fuel of `SW.step`),
+    the runs handed to the temporary file are consecutive pieces of the rows written (concatenated:
+    the input, in order), none empty, none longer than `sortRowCount`, the buffer is empty at `Close` -/
+theorem sorting_writer_runs_partition {R : Type} {maxRows : Nat} (h1 : 1 ≤ maxRows) (ops : List (SWOp R)) :
+    (cutRuns maxRows ops).flatten = written ops ∧ (∀ r ∈ cutRuns maxRows ops, r ≠ [] ∧ r.length ≤ maxRows) ∧
+    ((SW.empty.run maxRows ops).close).buf = [] :=
+  cutRuns_partition h1 ops
+
+example : cutRuns 3 [.write [1, 2], .write [3, 4, 5, 6, 7], .flush, .flush, .write [8]] = ([[1, 2, 3], [4, 5, 6], [7], [8]] : List (List Nat)) := by
+  decide
+
+/-- without explicit `Flush` calls the runs are the chunks of `sortRowCount` rows, whatever the
+    batch sizes of the `Write` calls (this is the `chunks` of `sorting_writer_correct_chunks`) -/
+theorem sorting_writer_runs_chunks {R : Type} {maxRows : Nat} (h1 : 1 ≤ maxRows) (ops : List (SWOp R))
+    (hw : ∀ op ∈ ops, ∃ rows, op = .write rows) :
+    cutRuns maxRows ops = chunks maxRows (written ops).length (written ops) :=
+  cutRuns_eq_chunks h1 ops hw
+
+example : cutRuns 3 [.write [1, 2], .write [3, 4, 5, 6, 7]] = chunks 3 7 ([1, 2, 3, 4, 5, 6, 7] : List Nat) := by decide
+
+/-- `sortRowCount = 0` is outside the theorems: the loop never takes a row, for any fuel (the
+    library's `Write` does not return) -/
+theorem sorting_writer_zero_run_size_spins {R : Type} (fuel : Nat) (w : SW R) (rows : List R) :
+    (w.writeLoop 0 fuel rows).2 = rows :=
+  SW.writeLoop_zero fuel w rows
+
+/-- **SortingWriter, any call history**: for every history of `Write`/`WriteRows`/`Flush` calls with
+    `sortRowCount ≥ 1`, the runs cut by the writer, sorted by any sorter yielding sorted
+    permutations, merged by the C09 readers (every refill pattern, every sequence of positive read
+    batch sizes long enough), give a permutation of the rows written, pairwise ordered -/
+theorem sorting_writer_correct_history {R : Type} (cmp : R → R → Int) (rank : R → Int) (hr : Ranked cmp rank)
+    (sortRun : List R → List R)
+    (hsort : ∀ run, (sortRun run).Perm run ∧ (sortRun run).Pairwise (fun a b => cmp a b ≤ 0))
+    {maxRows : Nat} (h1 : 1 ≤ maxRows) (ops : List (SWOp R))
+    (refills : List (List Nat)) (batches : List Nat) (hpos : ∀ b ∈ batches, 1 ≤ b)
+    (hlen : (PqModel.Merge.tagInputs (keysOf rank ((cutRuns maxRows ops).map sortRun))).flatten.length < batches.length) :
+    let ss := (cutRuns maxRows ops).map sortRun
+    let out := untag ss ((PqModel.Merge.Reader.new (PqModel.Merge.tagInputs (keysOf rank ss)) refills).session batches).1.flatten
+    out.Perm (written ops) ∧ out.Pairwise (fun a b => cmp a b ≤ 0) := by
+  intro ss out
+  have := sorting_writer_correct cmp rank hr sortRun hsort (cutRuns maxRows ops) refills batches hpos hlen
+  rw [(cutRuns_partition h1 ops).1] at this
+  exact this
+
+/-- … and when `WriteRowGroup(merged)` goes through a segment plan instead of the row readers (parts
+    of the temporary row groups that do not overlap in key space are copied, overlapping parts are
+    merged): for every plan that is `Good` in the sense of C09 (`refined_plan_is_merge`) over the
+    sorted runs of ANY call history, the output is again a sorted permutation of the rows written.
+    (That the cuts computed from the page indexes form a `Good` plan is C09's
+    `cuts_form_good_plan_partial` + its correspondence check.) -/
+theorem sorting_writer_correct_plan {R : Type} (cmp : R → R → Int) (rank : R → Int) (hr : Ranked cmp rank)
+    (sortRun : List R → List R)
+    (hsort : ∀ run, (sortRun run).Perm run ∧ (sortRun run).Pairwise (fun a b => cmp a b ≤ 0))
+    {maxRows : Nat} (h1 : 1 ≤ maxRows) (ops : List (SWOp R)) {k : Nat}
+    (segments : List (List (List PqModel.Merge.Row))) (outs : List (List PqModel.Merge.Row))
+    (hgood : PqModel.Merge.Plan.Good (k := k) segments outs)
+    (hjoin : PqModel.Merge.joinSegments k segments = PqModel.Merge.tagInputs (keysOf rank ((cutRuns maxRows ops).map sortRun))) :
+    let out := untag ((cutRuns maxRows ops).map sortRun) outs.flatten
+    out.Perm (written ops) ∧ out.Pairwise (fun a b => cmp a b ≤ 0) := by
+  intro out
+  have hm := PqModel.Props.C09.refined_plan_is_merge segments outs hgood
+  rw [hjoin] at hm
+  obtain ⟨p, q⟩ := untag_isMerge rank ((cutRuns maxRows ops).map sortRun) hm
+  refine ⟨?_, q.imp (fun h => (hr.le_iff _ _).mpr h)⟩
+  have := p.trans (perm_flatten_map sortRun (fun l => (hsort l).1) (cutRuns maxRows ops))
+  rwa [(cutRuns_partition h1 ops).1] at this
+
 -- NOT modelled: the typed/reflection ingestion into the buffers (C03), the temporary file encoding
--- (C01), the computation of the segment cuts of `WriteRowGroup(merged)` from indexes (C09, L2 there).
+-- (C01: each run is one row group of a file written and read back by the generic writer/reader), the
+-- computation of the segment cuts of `WriteRowGroup(merged)` from indexes (C09, L2 there).
 
 end PqModel.Props.C10
